@@ -764,6 +764,34 @@ impl Exec {
                 }
                 let ar = &self.cur.arena;
                 FMT_BUDGET.with(|b| b.set(4 * ar.count() as u64 + 8));
+                // first a print into a sink that fails after a few bytes (a failed print must leave nothing behind
+                // that a later print on this thread could see), then the real one
+                {
+                    struct Limited(usize);
+                    impl fmt::Write for Limited {
+                        fn write_str(&mut self, s: &str) -> fmt::Result {
+                            if s.len() > self.0 {
+                                self.0 = 0;
+                                Err(fmt::Error)
+                            } else {
+                                self.0 -= s.len();
+                                Ok(())
+                            }
+                        }
+                    }
+                    let limit = (usize::from(x) * 7 + mode as usize * 3 + 5) % 41;
+                    let _ = guard(|| {
+                        let p = x.debug_pretty_print(ar);
+                        let mut sink = Limited(limit);
+                        let _ = match mode {
+                            0 => fmt::write(&mut sink, format_args!("{}", p)),
+                            1 => fmt::write(&mut sink, format_args!("{:#}", p)),
+                            2 => fmt::write(&mut sink, format_args!("{:?}", p)),
+                            _ => fmt::write(&mut sink, format_args!("{:#?}", p)),
+                        };
+                    });
+                    FMT_BUDGET.with(|b| b.set(4 * ar.count() as u64 + 8));
+                }
                 let r = guard(|| {
                     let p = x.debug_pretty_print(ar);
                     match mode {
